@@ -582,9 +582,11 @@ impl<'t, 'd, 'e> Presenter<'t, 'd, 'e> {
 					3 if payload_is_struct => {
 						// struct variant / named struct carrying the branch name
 						let p = self.present_inner(b, inner, false);
+						// drawn unconditionally: tape consumption must not depend on the child's form
+						let as_variant = self.tape.bool();
 						match p {
 							P::Struct(_, fields) => {
-								if self.tape.bool() {
+								if as_variant {
 									self.cell("union", "struct_variant");
 									P::StructVariant("U", *i as u32, bname, fields)
 								} else {
@@ -638,59 +640,49 @@ impl<'t, 'd, 'e> Presenter<'t, 'd, 'e> {
 				let rec_idx = self.record_counter;
 				self.record_counter += 1;
 				self.records_seen.push((my_idx, fps.len(), fps.iter().enumerate().filter(|(_, f)| f.2).map(|(i, _)| i).collect()));
-				if let Some(fr) = self.forced.clone() {
-					if fr.target == rec_idx && fr.order.len() == fps.len() {
-						let mut out: Vec<(&'static str, P)> = Vec::new();
-						for &i in &fr.order {
-							let (n, p, nn) = &fps[i];
-							if *nn && fr.omit.contains(&i) {
-								self.omitted_fields += 1;
-								continue;
-							}
-							out.push((*n, p.clone()));
-						}
-						if fr.order.iter().enumerate().any(|(a, b)| a != *b) {
-							self.reordered_records += 1;
-						}
-						let sname = intern(split_fullname(rname).1);
-						return match fr.style {
-							0 => {
-								self.cell("record", "struct");
-								P::Struct(sname, out)
-							}
-							1 => {
-								self.cell("record", "map(entry)");
-								P::Map(Some(out.len()), out.into_iter().map(|(k, v)| (P::Str(k.to_string()), v)).collect(), true)
-							}
-							_ => {
-								self.cell("record", "map(kv)");
-								P::Map(None, out.into_iter().map(|(k, v)| (P::Str(k.to_string()), v)).collect(), false)
-							}
-						};
+				let nf = fps.len();
+				// All random choices are drawn first, in a way that does not depend on
+				// whether this record is the forced one (C13 compares bytes across runs that
+				// differ only in the forced record's order).
+				let omit_allowed = !natural_only;
+				let mut omit_drawn: Vec<usize> = Vec::new();
+				for (i, (_, _, nn)) in fps.iter().enumerate() {
+					if *nn && omit_allowed && self.tape.chance(80) {
+						omit_drawn.push(i);
 					}
 				}
+				let mut order_drawn: Vec<usize> = (0..nf).collect();
+				if !natural_only && nf > 1 && self.tape.chance(110) {
+					for i in (1..nf).rev() {
+						let j = self.tape.below(i + 1);
+						order_drawn.swap(i, j);
+					}
+				}
+				let style_drawn = if natural_only { 0 } else { self.tape.below(4) };
+				let (order, omit, style) = match &self.forced {
+					Some(fr) if fr.target == rec_idx && fr.order.len() == nf => (fr.order.clone(), fr.omit.clone(), match fr.style {
+						0 => 0,
+						1 => 2,
+						_ => 3,
+					}),
+					_ => (order_drawn, omit_drawn, style_drawn),
+				};
 				let mut out: Vec<(&'static str, P)> = Vec::new();
-				let omit_allowed = !natural_only;
-				for (n, p, nn) in fps {
-					if nn && omit_allowed && self.tape.chance(80) {
+				for &i in &order {
+					let (n, p, nn) = &fps[i];
+					if *nn && omit.contains(&i) {
 						self.omitted_fields += 1;
 						continue;
 					}
-					out.push((n, p));
+					out.push((*n, p.clone()));
 				}
-				// order
-				if !natural_only && out.len() > 1 && self.tape.chance(110) {
+				if order.iter().enumerate().any(|(a, b)| a != *b) {
 					self.reordered_records += 1;
-					for i in (1..out.len()).rev() {
-						let j = self.tape.below(i + 1);
-						out.swap(i, j);
-					}
 				}
 				// the struct name is irrelevant outside unions: use the simple name (what a
-				// derive would give) or anything
+				// derive would give)
 				let sname = intern(split_fullname(rname).1);
-				let n = if natural_only { 0 } else { self.tape.below(4) };
-				match n {
+				match style {
 					0 | 1 => {
 						self.cell("record", "struct");
 						P::Struct(sname, out)
